@@ -542,8 +542,8 @@ def convert_argmax_to_depthwise_conv_and_max_pool(op: Operation, arch, nng) -> O
         identity_quant = QuantizationParameters()
         identity_quant.zero_point = 0
         identity_quant.scale_f32 = 1.0
-        # Add last dimension to ofm shape
-        ofm.shape += [1]
+        # The ops writing the ofm see it with an added last dimension; the tensor itself keeps its shape
+        ofm_shape_4d = Shape4D(ofm.shape + [1])
         ofm.ops = []
 
         # Create 1x1 Depthwise convolution with 2**7 weights for each channel to convert precision to 16 bit and shift
@@ -653,6 +653,8 @@ def convert_argmax_to_depthwise_conv_and_max_pool(op: Operation, arch, nng) -> O
             intermediate_32bit = ofm
 
         op_cast = create_cast_op(f"{orig_name}_cast_to_32bit_1", maxpool_ofm, intermediate_32bit)
+        if intermediate_32bit is ofm:
+            op_cast.ofm_shapes = [ofm_shape_4d]
         DebugDatabase.add_optimised(op, op_cast)
 
         if ofm.dtype == DataType.int64:
@@ -670,6 +672,7 @@ def convert_argmax_to_depthwise_conv_and_max_pool(op: Operation, arch, nng) -> O
             DebugDatabase.add_optimised(op, op_cast)
 
             memcpy_op = create_memcpy("f{orig_name}_memcpy_2", intermediate_32bit_2x_size, ofm)
+            memcpy_op.ofm_shapes = [ofm_shape_4d]
             DebugDatabase.add_optimised(op, memcpy_op)
 
     return op
